@@ -22,5 +22,5 @@ echo "== apply patch, build, demo (must fail)"
 rm -rf $S
 echo "== check $P on /repo with the patch applied (must report VIOLATION)"
 git -C /repo apply $DEST/patch.diff && (cd /verif && ./bin/govc check -no-evidence -tier quick $P 2>&1 | cut -c1-220 | tail -6)
-git -C /repo checkout -- . 
+git -C /repo apply -R $DEST/patch.diff
 git -C /repo status --short | head -3
